@@ -67,6 +67,8 @@ class Part:
     #: wall budget per shard in seconds (a budget hit truncates, it never fails)
     budget = {QUICK: 120.0, THOROUGH: 1500.0}
     exhaustive = False
+    #: whether a new bucket of this part is shrunk by re-running its shard (expensive when a case is expensive)
+    shrinkable = {QUICK: True, THOROUGH: True}
     #: coverage-guided fuzz part (atheris): check(case={"data": bytes}); runs in a subprocess, thorough tier only
     fuzz = False
     fuzz_runs = {QUICK: 0, THOROUGH: 300000}
